@@ -156,8 +156,9 @@ pub fn check_field(ctx: &mut Ctx, g: &GRel) -> bool {
             }
         }
     }
-    // ---- lossy (fields without substvars)
-    if !has_sv {
+    // ---- lossy (fields without substvars; line breaks inside [..]/<..> are only demanded of the lossless reader,
+    //      the statement grants free newlines around separators)
+    if !has_sv && !g.features.contains(&"inner-group-newline") {
         let r = guard(t.len(), || debian_control::lossy::Relations::from_str(t).map(|rel| rel.0.iter().map(|e| e.iter().map(seen_lossy).collect::<Vec<_>>()).collect::<Vec<_>>()));
         match r {
             Err(f) => {
@@ -185,7 +186,7 @@ pub fn check_field(ctx: &mut Ctx, g: &GRel) -> bool {
 
 fn gen_lane(ctx: &mut Ctx, idx: u64) {
     let mut r = ctx.rng();
-    let o = ROpts { substvars: idx % 3 == 0, ws_level: 1 + (idx % 2) as u8, ..ROpts::default() };
+    let o = ROpts { substvars: idx % 3 == 0, ws_level: 1 + (idx % 2) as u8, inner_newlines: idx % 4 == 1, ..ROpts::default() };
     let g = relgen::gen_field(&mut r, &o);
     let ok = check_field(ctx, &g);
     ctx.count(if ok { "held" } else { "violated" });
